@@ -101,6 +101,9 @@ func (r *Rec) X(id int) { r.log("x", id, 0) }
 // W is a ONE-argument effectful call: logs and returns x.
 func (r *Rec) W(x int) int { r.log("w", x); return x }
 
+// B is a one-argument call that panics.
+func (r *Rec) B(x int) int { panic("boom") }
+
 // NilOf is the operand of `return <expr>` in a generator: evaluated, logged, discarded.
 func NilOf[T any](r *Rec, id int) (z T) { r.log("v", id, 0); return }
 
